@@ -1,6 +1,7 @@
 import Secp.Proofs.PubKey
 import Secp.Proofs.Slices
 import Secp.Proofs.BytesProgPub
+import Secp.Proofs.BytesBuild
 /-
   Props/C08 — public-key parsing accepts exactly the valid encodings and round-trips.
   Model: `Secp.Model.parsePubKey`, `serializeCompressed/Uncompressed`,
@@ -79,5 +80,15 @@ theorem parsePubKey_regenerated (b : Bytes) : Secp.Gen.BytesProg.parsePubKey b =
 /-- the REGENERATED parser never indexes or slices out of range -/
 theorem regenerated_no_panic (b : Bytes) : Secp.Gen.BytesProg.parsePubKey b ≠ .panic := by
   rw [parsePubKey_regenerated]; exact parsePubKey_no_panic b
+
+
+/-- the serialisers as REGENERATED from pubkey.go (pass T7, builders) are the models used above -/
+theorem serializeCompressed_regenerated (x y : Nat) :
+    Secp.Gen.BytesBuild.serializeCompressed x y = serializeCompressed x y :=
+  Secp.Proofs.BytesBuild.serializeCompressed_gen_eq_model x y
+
+theorem serializeUncompressed_regenerated (x y : Nat) :
+    Secp.Gen.BytesBuild.serializeUncompressed x y = serializeUncompressed x y :=
+  Secp.Proofs.BytesBuild.serializeUncompressed_gen_eq_model x y
 
 end Secp.Props.C08
